@@ -20,10 +20,11 @@ pub fn gens(cx: &Cx) -> Vec<Gen> {
         Gen { name: "ext", count: cx.n(20_000, 600_000), exhaustive: false },
         Gen { name: "state", count: cx.n(20_000, 1_000_000), exhaustive: false },
         Gen { name: "runs", count: cx.n(600, 20_000), exhaustive: false },
+        Gen { name: "bigfrag", count: 21, exhaustive: true },
     ]
 }
 
-pub const RULE: &str = "lattice: every (PDU size, buffer size) pair of the size lattice L x L (L = 0..16, 25..27, 100, 255..257, 1000, 4080..4100, 8190..8195, 16384, 32767, 32768, 65520..65540, 69999, 70000) x 6 label cases (6-byte, 3-byte, broadcast, explicit re-use, 6-byte primed, 3-byte primed) for the first call, then up to 20 continuation calls with buffers drawn from L, 0..32 and exact-fit sizes; fragpos: encap_frag on every context position 0..=len+2 of PDUs of 0..=64 bytes x every buffer size 0..=40 and {100,4097,4098,70000}, and boundary positions of lattice-sized PDUs x L; ptypes: protocol types (all 65536 in thorough) x labels incl. zero and explicit re-use; ext: seeded extension chains of 0..4 entries incl. illegal combinations, fragmented on; state: seeded configuration + traffic prefix then a random call (atomicity over prior states); runs: whole PDUs driven to completion under constant-7, constant-8 and random >=7 byte schedules. Every call is one evaluation; a call is non-trivial when the oracle of this property had something to judge (see per-property note); fingerprint = hash(function, PDU length, buffer length, label case, context position, outcome class).";
+pub const RULE: &str = "lattice: every (PDU size, buffer size) pair of the size lattice L x L (L = 0..16, 25..27, 100, 255..257, 1000, 4080..4100, 8190..8195, 16384, 32767, 32768, 65520..65540, 69999, 70000) x 6 label cases (6-byte, 3-byte, broadcast, explicit re-use, 6-byte primed, 3-byte primed) for the first call, then up to 20 continuation calls with buffers drawn from L, 0..32 and exact-fit sizes; fragpos: encap_frag on every context position 0..=len+2 of PDUs of 0..=64 bytes x every buffer size 0..=40 and {100,4097,4098,70000}, and boundary positions of lattice-sized PDUs x L; ptypes: protocol types (all 65536 in thorough) x labels incl. zero and explicit re-use; ext: seeded extension chains of 0..4 entries incl. illegal combinations, fragmented on; state: seeded configuration + traffic prefix then a random call (atomicity over prior states); runs: whole PDUs driven to completion under constant-7, constant-8 and random >=7 byte schedules; bigfrag: continuation calls with 4080..=4100 bytes remaining x buffers {4090,4096..4101,5000,8000,65536,70000} at four context positions. Every call is one evaluation; a call is non-trivial when the oracle of this property had something to judge (see per-property note); fingerprint = hash(function, PDU length, buffer length, label case, context position, outcome class).";
 
 fn fp(func: Func, plen: usize, blen: usize, lk: &str, pos: usize, outc: u64) -> u64 {
     mix(mix(mix(func as u64 + 1, plen as u64), mix(blen as u64, fnv(lk.as_bytes()))), mix(pos as u64, outc))
@@ -223,6 +224,8 @@ pub fn run_key(cx: &Cx, mask: u32, gen: &str, key: u64, rep: &mut Report) {
                 0 => 0,
                 1 => rng.range(4000, 4200),
                 2 => rng.range(1, 8),
+                // around the 16-bit total-length limit (with and without a final mandatory extension)
+                3 if key % 8 == 3 => rng.range(65510, 65540),
                 _ => rng.range(1, 300),
             };
             let pdu = gen_pdu(&mut rng, plen, 0);
@@ -312,6 +315,20 @@ pub fn run_key(cx: &Cx, mask: u32, gen: &str, key: u64, rep: &mut Report) {
                         note(rep, mask, &spec, &o);
                         rep.count(if o.ok() { "state.ok" } else { "state.err" });
                     }
+                }
+            }
+        }
+        "bigfrag" => {
+            // continuation calls with about one maximum packet left and buffers around / above 4097 bytes
+            let r = 4080 + key as usize;
+            let mut s = Sender::new(0x88);
+            for (plen, pos) in [(r, 0usize), (r + 10, 10), (12000, 12000 - r), (65535, 65535 - r)] {
+                let pdu = gen_pdu(&mut rng, plen, 4);
+                for b in [4090usize, 4096, 4097, 4098, 4099, 4100, 4101, 5000, 8000, 65536, 70000] {
+                    let ctx = ContextFrag::new(rng.byte(), rng.next() as u32, pos as u16);
+                    let spec = CallSpec { func: Func::Frag, pdu: &pdu, frag_id: 0, ptype: 0, label: Label::ReUse, exts: None, ctx: Some(ctx), buf_len: b };
+                    let o = s.call(&spec, mask, rep, &replay);
+                    note(rep, mask, &spec, &o);
                 }
             }
         }
